@@ -182,6 +182,8 @@ fn battery(id: &str, seed: u64) -> Result<(), String> {
 
 /// Child side.
 pub fn child(id: &str, seed: u64, threads: usize) -> i32 {
+    // key generation is a thousand times dearer than the other batteries: four threads at most
+    let threads = if matches!(id, "C01" | "C15" | "C04") { threads.min(4) } else { threads };
     let barrier = std::sync::Barrier::new(threads.max(1));
     let results: Vec<Result<(), String>> = std::thread::scope(|sc| {
         let hs: Vec<_> = (0..threads.max(1))
